@@ -114,6 +114,9 @@ pub fn dispatch(t: &[&str]) -> String {
         // hsplit <chunk_size> <hex> [file]: the byte-level NAL batches hevc_parser hands over (parse_nals off):
         // through a cursor, or (`file`) through process_file and its BufReader
         "hsplit" => hevc_split(t),
+        // hsplits <chunk_size> <hex,hex,...>: the same through the piped-stdin mode (IoFormat::RawStdin) with a
+        // reader that returns exactly the given fragments, one per read() call
+        "hsplits" => hevc_split_stdin(t),
         // madvrinfo <hex>: what the madvr_parse crate derives from a measurement file (inputs of the generator model):
         // flags, maxcll, maxfall, frame count, per scene start:length:round(max_pq*4095):round(avg_pq*4095), per frame round(target_pq*4095)
         "madvrinfo" => match madvr_parse::MadVRMeasurements::parse_measurements(&unhex(t[1])) {
@@ -365,6 +368,42 @@ fn hevc_split(t: &[&str]) -> String {
         p.process_io(&mut rd, &mut c)
     };
     match r {
+        Ok(()) => format!("ok {}", if c.batches.is_empty() { "-".to_string() } else { c.batches.iter().map(|b| if b.is_empty() { "-".to_string() } else { b.join(",") }).collect::<Vec<_>>().join("|") }),
+        Err(e) => format!("err {}", e.to_string().replace(char::is_whitespace, "_")),
+    }
+}
+
+struct FragReader {
+    frags: Vec<Vec<u8>>,
+    i: usize,
+}
+
+impl std::io::Read for FragReader {
+    fn read(&mut self, buf: &mut [u8]) -> std::io::Result<usize> {
+        if self.i >= self.frags.len() {
+            return Ok(0);
+        }
+        let f = &mut self.frags[self.i];
+        let n = std::cmp::min(buf.len(), f.len());
+        buf[..n].copy_from_slice(&f[..n]);
+        if n == f.len() {
+            self.i += 1;
+        } else {
+            f.drain(..n);
+        }
+        Ok(n)
+    }
+}
+
+fn hevc_split_stdin(t: &[&str]) -> String {
+    use hevc_parser::io::{processor::{HevcProcessor, HevcProcessorOpts}, IoFormat};
+    let cs: usize = t[1].parse().unwrap();
+    let frags: Vec<Vec<u8>> = if t[2] == "-" { Vec::new() } else { t[2].split(',').map(|x| if x == "." { Vec::new() } else { unhex(x) }).collect() };
+    let mut c = Batches { input: std::path::PathBuf::new(), batches: Vec::new() };
+    let opts = HevcProcessorOpts { parse_nals: false, ..Default::default() };
+    let mut p = HevcProcessor::new(IoFormat::RawStdin, opts, cs);
+    let mut rd = FragReader { frags, i: 0 };
+    match p.process_io(&mut rd, &mut c) {
         Ok(()) => format!("ok {}", if c.batches.is_empty() { "-".to_string() } else { c.batches.iter().map(|b| if b.is_empty() { "-".to_string() } else { b.join(",") }).collect::<Vec<_>>().join("|") }),
         Err(e) => format!("err {}", e.to_string().replace(char::is_whitespace, "_")),
     }
